@@ -316,5 +316,47 @@ func checkRequest(idx bleve.Index, spec reqSpec, wantKeys []string, wantSort []s
 	if r1 != r2 {
 		probs = append(probs, jsonProblem{"request-results-differ", fmt.Sprintf("request and its JSON round trip return different results; JSON %s\n original:   %.600s\n round trip: %.600s", j1, r1.View, r2.View)})
 	}
+	// the hand-written form: a key whose value is the documented default is left out
+	// (QueryJSON!ReqFromJSON: sort missing -> [-_score], size missing -> 10, from missing -> 0).
+	// Before it, a request of the same sparse form that FAILS (search_before with the default
+	// sort, a query naming an analyzer that does not exist): one request's failure must not
+	// change what the next parsed request means.
+	if ss, ok := singleScoreDesc(req.Sort); ok && ss {
+		var poison bleve.SearchRequest
+		if err := json.Unmarshal([]byte(`{"query":{"match":"cat","field":"t","analyzer":"verif-no-such-analyzer"},"search_before":["1"]}`), &poison); err == nil {
+			_, _ = idx.Search(&poison)
+		}
+		sparse := map[string]json.RawMessage{}
+		for k, v := range top {
+			sparse[k] = v
+		}
+		delete(sparse, "sort")
+		if req.Size == 10 {
+			delete(sparse, "size")
+		}
+		if req.From == 0 {
+			delete(sparse, "from")
+		}
+		j3, _ := json.Marshal(sparse)
+		var back3 bleve.SearchRequest
+		if err := json.Unmarshal(j3, &back3); err != nil {
+			return append(probs, jsonProblem{"request-sparse-parse-fails", fmt.Sprintf("request JSON %s does not parse: %v", j3, err)})
+		}
+		if v1, v3 := requestView(req), requestView(&back3); v1 != v3 {
+			probs = append(probs, jsonProblem{"request-sparse-differs", fmt.Sprintf("request settings differ when default-valued keys are left out of the JSON\n original: %s\n parsed:   %s", v1, v3)})
+		}
+		if r3 := runRequest(idx, &back3); r1 != r3 {
+			probs = append(probs, jsonProblem{"request-sparse-results-differ", fmt.Sprintf("request and its JSON form without the default-valued keys return different results; JSON %s\n original: %.600s\n parsed:   %.600s", j3, r1.View, r3.View)})
+		}
+	}
 	return probs
+}
+
+// singleScoreDesc: the sort is the default one (score, descending).
+func singleScoreDesc(so search.SortOrder) (bool, bool) {
+	if len(so) != 1 {
+		return false, true
+	}
+	sc, ok := so[0].(*search.SortScore)
+	return ok && sc.Desc, true
 }
